@@ -174,6 +174,28 @@ func checkBi(c biCase) *vk.Failure {
 				}
 			}
 		}
+		// affine invariance: Correlation(x, -2y+1) = -Correlation(x, y) (exact map only)
+		y2 := make([]float64, n)
+		exactMap := true
+		for i, v := range y {
+			y2[i] = -2*v + 1
+			if df(-2).mulf(v).addf(1).sub(df(y2[i])).f() != 0 {
+				exactMap = false
+			}
+		}
+		if exactMap {
+			vk.Class("bi affine-exact")
+			b2 := newBiRef(x, y2, w)
+			tol2 := 2 * (b2.tolC/math.Sqrt(Sx*b2.ry.S.f()) + math.Abs(want)*(b2.rx.tolS/Sx+b2.ry.tolS/b2.ry.S.f()) + 4*u)
+			if f := failClose("affine-correlation", stat.Correlation(x, y2, w), -got, tol+tol2, ctx); f != nil {
+				return f
+			}
+			if sampleOK {
+				if f := failClose("affine-covariance", stat.Covariance(x, y2, w), -2*stat.Covariance(x, y, w), 2*tolCov+b2.tolC/(Wf-1)*1.01+8*u*math.Abs(cov), ctx); f != nil {
+					return f
+				}
+			}
+		}
 		if f := failClose("correlation-symmetry", stat.Correlation(y, x, w), got, 2*tol, ctx); f != nil {
 			return f
 		}
@@ -414,5 +436,5 @@ func drawBi(t *rapid.T) biCase {
 }
 
 func TestBi(t *testing.T) {
-	vk.Run(t, "bi", vk.Opts{Quick: 25000, Thorough: 700000, NoCrumb: true}, drawBi, checkBi)
+	vk.Run(t, "bi", vk.Opts{Quick: 50000, Thorough: 700000, NoCrumb: true}, drawBi, checkBi)
 }
